@@ -2393,7 +2393,7 @@ impl Formatter {
     if self.html {
       format!("<span class=\"mech-range-expression\"><span class=\"mech-range-start\">{}</span><span class=\"mech-range-operator\">{}</span><span class=\"mech-range-terminal\">{}</span>{}</span>",start,operator,terminal,increment)
     } else {
-      format!("{}{}{}{}", start, operator, terminal, increment)
+      format!("{}{}{}{}", start, increment, operator, terminal)
     }
   }
 
@@ -2425,8 +2425,10 @@ impl Formatter {
     let e = self.expression(expr);
     if self.html {
       format!("<span class=\"mech-argument\"><span class=\"mech-argument-name\">{}</span><span class=\"mech-argument-expression\">{}</span></span>",n,e)
+    } else if name.is_some() {
+      format!("{}: {}", n, e)
     } else {
-      format!("{}{}", n, e)
+      format!("{}", e)
     }
   }
 
@@ -2749,6 +2751,18 @@ impl Formatter {
         return format!("[]");
       }
     }
+    if !self.html {
+      // Text mode: one row after the other, rows separated by "; ", so that the literal parses back with the same shape.
+      for (i, row) in node.rows.iter().enumerate() {
+        let r = self.matrix_row(row);
+        if i == 0 {
+          src = format!("{}", r);
+        } else {
+          src = format!("{}; {}", src, r);
+        }
+      }
+      return format!("[{}]", src);
+    }
     let column_count = node.rows[0].columns.len(); // Assume all rows have the same number of columns
 
     for col_index in 0..column_count {
@@ -3033,8 +3047,8 @@ pub fn matrix_column_elements(&mut self, column_elements: &[&MatrixColumn]) -> S
       SetOp::Intersection => "∩".to_string(),
       SetOp::Difference => "∖".to_string(),
       SetOp::Complement => "∁".to_string(),
-      SetOp::Subset => "⊂".to_string(),
-      SetOp::Superset => "⊃".to_string(),
+      SetOp::Subset => "⊆".to_string(),
+      SetOp::Superset => "⊇".to_string(),
       SetOp::ProperSubset => "⊊".to_string(),
       SetOp::ProperSuperset => "⊋".to_string(),
       SetOp::ElementOf => "∈".to_string(),
@@ -3068,7 +3082,7 @@ pub fn matrix_column_elements(&mut self, column_elements: &[&MatrixColumn]) -> S
     match node {
       VecOp::MatMul => "**".to_string(),
       VecOp::Solve => "\\".to_string(),
-      VecOp::Cross => "×".to_string(),
+      VecOp::Cross => "⨯".to_string(),
       VecOp::Dot => "·".to_string(),
     }
   }
@@ -3077,7 +3091,7 @@ pub fn matrix_column_elements(&mut self, column_elements: &[&MatrixColumn]) -> S
     match node {
       ComparisonOp::Equal => "⩵".to_string(),
       ComparisonOp::StrictEqual => "=:=".to_string(),
-      ComparisonOp::StrictNotEqual => "=/=".to_string(),
+      ComparisonOp::StrictNotEqual => "=!=".to_string(),
       ComparisonOp::NotEqual => "≠".to_string(),
       ComparisonOp::GreaterThan => ">".to_string(),
       ComparisonOp::GreaterThanEqual => "≥".to_string(),
